@@ -933,9 +933,9 @@ def border_plan(tier, seed):
             ("collinear-cycle3", [merged(seed + 1)], 2, False),
         ]
     return [
-        ("all-all", [plain, merged(seed), merged(seed + 1)], 2, False),
+        ("all-all", [plain, merged(seed)], 2, False),
         ("all-cycle3", [plain], 2, True),
-        ("collinear-all", [plain], 3, False),
+        ("collinear-cycle", [plain, merged(seed + 1)], 3, False),
         ("collinear-one", [plain], 3, True),
         ("collinear-cycle3", [merged(seed + i) for i in range(3)], 2, True),
         ("collinear-cycle3-reopen", [plain], 2, True),
